@@ -4,5 +4,5 @@ CONSTANTS
   Scenarios <- ScenT
   KOff <- KOffT
   KIn <- KInT
-INVARIANTS WellFormedInv NodeInv RangeInv ContinuityInv LinearInv MarginInv FirstHitInv DeepestInv SubgridContinuityInv ConvInv EmitSc
+INVARIANTS WellFormedInv NodeInv RangeInv ContinuityInv LinearInv MarginInv FirstHitInv DeepestInv SubgridContinuityInv ConvInv EmptyListInv EmptyListWitness SpellingInv SiblingInv EmitSc
 CHECK_DEADLOCK FALSE
